@@ -279,7 +279,12 @@ func verifC01ztr(name string, scheme int, solve bool) {
 	ul := verifC01uplo("uplo")
 	tA := verifC01trans("trans")
 	dg := verifC01diag("diag")
-	n := verifChoose("n", 0, verifParam("zn", 2)+1)
+	maxN := verifParam("zn", 2) + 1
+	if solve {
+		// complex division makes op(A)*x_out == x_in expensive for the solver (Ztrsv n <= 3: 25 min of z3 time)
+		maxN = verifParam("zsn", 2)
+	}
+	n := verifChoose("n", 0, maxN)
 	st := verifC01zmkStore(scheme, ul, n)
 	incX := verifC01inc("incX")
 	slack := verifChoose("slack", 0, 1)
